@@ -309,6 +309,11 @@ fn prop_rt_inner(bytes: &[u8], explain: bool) -> String {
         Ok(x) => x,
         Err(e) => return format!("FAIL {e}"),
     };
+    if explain {
+        if let Some(d) = crate::util::path_roundtrip_check(&m1, &_t) {
+            return format!("FAIL {d}");
+        }
+    }
     let (chrono, mode_after) = domain(bytes);
     if !chrono {
         return "SKIP not-chronological".to_owned();
@@ -398,6 +403,9 @@ const HEADERS: [&str; 8] = ["[General]", "[Editor]", "[Metadata]", "[Difficulty]
 pub fn prop_lines(bytes: &[u8]) -> String {
     let Ok(mut m1) = rosu_map::from_bytes::<Beatmap>(bytes) else { return "FAIL decode error".into() };
     let Ok(text) = m1.encode_to_string() else { return "FAIL encode error".into() };
+    if let Some(d) = crate::util::path_roundtrip_check(&m1, &text) {
+        return format!("FAIL {d}");
+    }
     let lines: Vec<&str> = text.split('\n').collect();
     let Some(first) = lines.first() else { return "FAIL empty output".into() };
     if !first.starts_with("osu file format v") || first["osu file format v".len()..].parse::<i32>() != Ok(m1.format_version) {
@@ -604,6 +612,9 @@ pub fn prop_edit(bytes: &[u8], edits: &[&str]) -> String {
         Ok(x) => x,
         Err(e) => return if e.starts_with("bad-edit") { format!("SKIP {e}") } else { format!("FAIL {e}") },
     };
+    if let Some(d) = crate::util::path_roundtrip_check(&m, &_t) {
+        return format!("FAIL {d}");
+    }
     let names: Vec<&str> = edits.iter().filter_map(|e| e.split_once('=').map(|x| x.0)).collect();
     let probes = probes_of(&[&m, &m2, &base2]);
     let want = preserved(&mut m, &probes, false);
